@@ -73,7 +73,7 @@ pub fn main(entries: Vec<Entry>, dyn_peers: Vec<(&'static str, rt::registry::Pee
     crate::world::install_panic_hook();
     let args: Vec<String> = std::env::args().skip(1).collect();
     let reg = Reg::new(entries, dyn_peers);
-    let code = crate::world::guarded(|| match args.first().map(|s| s.as_str()) {
+    let run = move || crate::world::guarded(|| match args.first().map(|s| s.as_str()) {
         Some("check") => cmd_check(&args[1..], &reg, table),
         Some("replay") => cmd_replay(&args[1..], &reg, table),
         Some("hashes") => cmd_hashes(&args[1..], &reg, table),
@@ -84,6 +84,7 @@ pub fn main(entries: Vec<Entry>, dyn_peers: Vec<(&'static str, rt::registry::Pee
             2
         }
     });
+    let code = std::thread::Builder::new().stack_size(crate::STACK_BYTES).spawn(run).expect("spawn").join().unwrap_or(Err("main worker died".to_string()));
     let code = match code {
         Ok(c) => c,
         Err(msg) => {
